@@ -272,7 +272,7 @@ def bigm_sweep(res):
 def run(ctx):
     common.build("build/vd/vdriver")
     known = {k for k, r in common.load_known(ctx.pid).items() if r.get("status") == "known"}
-    res = hyp.run_property(ctx, cases(), judge, ctx.pick(8000, 300000), known_keys=known, time_budget=ctx.pick(300, 3600))
+    res = hyp.run_property(ctx, cases(), judge, ctx.pick(8000, 300000), known_keys=known, time_budget=ctx.pick(300, 900))
     for desc, what in bigm_sweep(res):
         path = common.save_replay(ctx.pid, {"bigm_sweep": what})
         res.violation(desc, None, path)
